@@ -199,11 +199,12 @@ void tmcg_mpz_fpowm
 	 mpz_ptr res, mpz_srcptr m, mpz_srcptr x, mpz_srcptr p)
 {
 	mpz_t xx;
+	const int sign = mpz_sgn(x); // res may be the same variable as x
 
 	if (mpz_cmp(m, fpowm_table[0]))
 		throw std::invalid_argument("tmcg_mpz_fpowm: wrong base");
 	mpz_init_set(xx, x);
-	if (mpz_sgn(x) == -1)
+	if (sign == -1)
 		mpz_neg(xx, x);
 	
 	if (mpz_sizeinbase(xx, 2UL) <= TMCG_MAX_FPOWM_T)
@@ -218,7 +219,7 @@ void tmcg_mpz_fpowm
 			}
 		}
 		/* invert the result, if x was negative */
-		if (mpz_sgn(x) == -1)
+		if (sign == -1)
 		{
 			if (!mpz_invert(res, res, p))
 			{
@@ -269,11 +270,12 @@ void tmcg_mpz_fspowm
 	mpz_ptr res, mpz_srcptr m, mpz_srcptr x, mpz_srcptr p)
 {
 	mpz_t foo, bar, baz, xx;
+	const int sign = mpz_sgn(x); // res may be the same variable as x
 
 	if (mpz_cmp(m, fpowm_table[0]))
 		throw std::invalid_argument("tmcg_mpz_fspowm: wrong base");
 	mpz_init(foo), mpz_init(bar), mpz_init(baz), mpz_init_set(xx, x);
-	if (mpz_sgn(x) == -1)
+	if (sign == -1)
 		mpz_neg(xx, x);
 	else
 		mpz_neg(bar, x);
@@ -298,7 +300,7 @@ void tmcg_mpz_fspowm
 			mpz_clear(foo), mpz_clear(bar), mpz_clear(baz), mpz_clear(xx);
 			throw std::runtime_error("tmcg_mpz_fspowm: mpz_invert failed");
 		}
-		if (mpz_sgn(x) == -1)
+		if (sign == -1)
 			mpz_set(res, foo);
 		else
 			mpz_set(baz, foo);
